@@ -30,6 +30,12 @@ func refuse(rule, format string, a ...any) error {
 }
 
 // Node is an XML element.
+// ReplaceServiceGroupMembers makes "set .../service-group/entry/members"
+// replace the member list instead of merging into it: what the device would
+// hold had the tool used an action that replaces. Only the oracles switch it
+// on, to decide whether a failure is fully explained by known finding F21.
+var ReplaceServiceGroupMembers bool
+
 type Node struct {
 	Name     string
 	Attrs    [][2]string
@@ -599,6 +605,9 @@ func (s *State) Exec(c Cmd) error {
 		_, node, err := s.resolve(steps, true)
 		if err != nil {
 			return err
+		}
+		if ReplaceServiceGroupMembers && strings.HasSuffix(c.XPath, "/members") && strings.Contains(c.XPath, "/service-group/entry[@name='") {
+			node.Children = nil
 		}
 		if err := mergeInto(node, frag); err != nil {
 			return err
